@@ -80,6 +80,7 @@ func (w *Worker) runPath(h *ssa.Function, prefix []int, wantSample bool) (res *P
 	}
 	p := w.newPath(h, prefix)
 	res = &PathResult{status: "ok"}
+	p.epoch = w.sv.epoch
 	w.sv.Push()
 	defer func() {
 		r := recover()
